@@ -663,7 +663,7 @@ def run(ck):
         "C12: the live-tail LTS abstracts one tick's pipeline to its result (answer / error message / return) -- that pipeline is theorem tail_tick_pipeline_terminates -- and assumes time does not pass while a channel operation is ready (Go's select picks among the ready cases)",
         "C12: a Scan error in TempoService.Tags / Values / Search returns without rows.Close(): the result set is released by database/sql (Rows.awaitDone) when net/http cancels the request context -- modelled as the drainer of that cell",
         "C12: StableSqlxDBWrapper: sync.RWMutex is modelled as a writer-preferring read/write lock (RLock waits while a writer is active or announced, Lock announces one writer at a time and waits for the readers; the reader hand-off inside Unlock is one of the model's schedules); that every unit of sqlxWrap.go performs well-bracketed sections (pl_ok) rests on locks_released_on_every_path over the generated flows plus the reading of QueryCtx (the closure returns before the write lock is asked for); the harness counts pool rebuilds in the GetDB callback it hands to the real wrapper and cancels the request context itself when a scripted statement stalls",
-        "C12: connection pool: database/sql is modelled as a counter of connections (a statement takes one and blocks while none is free; the result set gives it back at Close() or when Next() returns false; a goroutine reading a result set gives it back when the channel it feeds is closed); translate/goinv_reader/connflow.go decides by name which calls may issue a statement (least fixpoint over the call graph; QueryCtx / QueryContext / Queryx = a statement, ExecCtx / ExecContext / Exec / Conn / Begin = ask-and-give-back, Exec also being the PromQL engine calling back into the reader's Queryable) and which of them lend (may issue a statement and return a channel); method calls are resolved by the receiver's written type where the unit shows it, else by name and argument count; one flow per variable and body: a result set stored in a struct field, passed to a callee or returned is followed only as far as the reviewed list says; that the per-body discipline gives the per-request discipline kn_ok of the pool theorem is argued, not proved: per body the exit-state obligation shows that a callee's connection is given back before it returns, left to a registered deferred Close, or lent through the channel / result set it returns; a return with a non-nil error is taken to end the request (context cancelled, database/sql takes the connection back) and `v, err := call; if err != nil {..}` to enter the error branch exactly when nothing was acquired; five bodies are reviewed exits (ReadConn.exit_reviewed); the harness sets the pool size with SetMaxOpenConns on the pool behind the real wrapper",
+        "C12: connection pool: database/sql is modelled as a counter of connections (a statement takes one and blocks while none is free; the result set gives it back at Close() or when Next() returns false; a goroutine reading a result set gives it back when the channel it feeds is closed); translate/goinv_reader/connflow.go decides by name which calls may issue a statement (least fixpoint over the call graph; QueryCtx / QueryContext / Queryx = a statement, ExecCtx / ExecContext / Exec / Conn / Begin = ask-and-give-back, Exec also being the PromQL engine calling back into the reader's Queryable) and which of them lend (may issue a statement and return a channel); method calls are resolved by the receiver's written type where the unit shows it, else by name and argument count; one flow per variable and body: a result set stored in a struct field, passed to a callee or returned is followed only as far as the reviewed list says; that the per-body discipline gives the per-request discipline kn_ok of the pool theorem is argued, not proved: per body the exit-state obligation shows that a callee's connection is given back before it returns, left to a registered deferred Close, or lent through the channel / result set it returns; a return with a non-nil error is taken to end the request (context cancelled, database/sql takes the connection back) and `v, err := call; if err != nil {..}` to enter the error branch exactly when nothing was acquired; four bodies are reviewed exits (ReadConn.exit_reviewed); the harness sets the pool size with SetMaxOpenConns on the pool behind the real wrapper",
         "C12: goroutine census (runtime.Stack) and the child-process crash/hang detection of harness/cmd/readfuzz",
         "C12: go/ast translator translate/goinv_reader (recover status, operation census by name-based call following inside a package)",
     ]
